@@ -643,13 +643,14 @@ class DefaultCodec(Codec):
                     parent_index = pickle_partition_parent._index
                     # noinspection PyProtectedMember
                     parent_data_source = pickle_partition_parent._data_source
-                elif hasattr(merge_parent, "_output_keys") and hasattr(
-                    merge_parent, "_data_source"
+                elif (
+                    getattr(merge_parent, "_output_keys", None) is not None
+                    and getattr(merge_parent, "_parent_data_source", None) is not None
                 ):
                     # noinspection PyProtectedMember
                     parent_index = merge_parent._output_keys
                     # noinspection PyProtectedMember
-                    parent_data_source = merge_parent._data_source
+                    parent_data_source = merge_parent._parent_data_source
                 else:
                     raise IOError(
                         "Could not merge partitions: parent is not "
@@ -696,9 +697,11 @@ class DefaultCodec(Codec):
 
             # If this is an InMemoryPartition, remember the output keys so they can be
             # referred to when merging partitions in the future
-            if hasattr(obj, "_output_keys") and hasattr(obj, "_data_source"):
-                obj._output_keys = output_keys
-                obj._data_source = data_source
+            # (the whole merged index: a later child must inherit the keys of this partition's
+            # own parents as well)
+            if hasattr(obj, "_output_keys") and hasattr(obj, "_parent_data_source"):
+                obj._output_keys = dict(index)
+                obj._parent_data_source = data_source
 
             # noinspection PyProtectedMember
             obj._index_bytes = DefaultCodec.PicklePartition._serialize_index(index)
